@@ -438,6 +438,11 @@ def r_pushpop_dual(cx):
         f = cx.f.fn(fn)
         outer = [lp for lp in f.loops() if lp.parent is None and any(l.parent is lp for l in f.loops())]
         el = consts.const_value(cx.f, fn + "::ELEMENTS")
+        if not outer:
+            # the inner pass over the operands may be an iterator chain: the loop over the flags is then the top-level
+            # loop that tests the flags
+            outer = [lp for lp in f.loops() if lp.parent is None and any(
+                f.term(b)["k"] == "call" and (f.callee(f.term(b)) or "").endswith("::contains") for b in lp.body)]
         dom = _outer_domain(f, outer[0]) if outer else None
         doms[fn] = dom
         ok = dom is not None and el is not None and dom == set(range(len(el)))
@@ -486,6 +491,33 @@ def r_underflow_guard(cx):
                     r0 = mir.strip_refs(f.arg_terms(bb)[0])
                     if r0[0] == "proj" and isinstance(r0[2], tuple) and r0[2][0] == "elem" and len(r0[2]) == 3:
                         stack_index.append(bb)
+        # `let Some(v) = stack.pop() else { .. }`: the pop is its own depth test, the None side is the failing side
+        nmatch = 0
+        for bb, t in f.calls():
+            if not ((f.callee(t) or "").endswith("Vec::<T, A>::pop") and _rooted_at_arg1(f.arg_terms(bb)[0])):
+                continue
+            for b2 in sorted(f.reachable()):
+                sw = f.term(b2)
+                if sw["k"] != "switch":
+                    continue
+                d = f.operand(sw["discr"], f.end_point(b2))
+                if d[0] != "discr":
+                    continue
+                src = mir.strip_refs(d[1])
+                if not (src[0] == "call" and src[3] == bb):
+                    continue
+                tg = dict((v, x) for v, x in sw["targets"])
+                none = tg.get(0, sw["otherwise"] if 1 in tg else None)
+                if none is None:
+                    continue
+                n += 1
+                nmatch += 1
+                okf = _fails_loudly(f, none)
+                cx.ob("R-UNDERFLOW-GUARD", "%s/pop-match%d" % (fn, nmatch - 1), okf,
+                      "the empty-stack side of `let Some(..) = stack.pop()` in %s marks the operands with NaN and returns 0" % fn
+                      if okf else
+                      "the empty-stack side of the pop in %s does not (stomp the operands with NaN and return 0)" % fn,
+                      cx.where(t["span"]))
         sites = pops + stack_index
         if not sites:
             continue
